@@ -48,7 +48,7 @@ def fixed_cases():
         cfg = _base([3, 3], store=store, num_probes=2 if store == "dir" else 1)
         cfg["calls"] = [{"n": 12, "opt": {"object": dict(opt), "probe": dict(opt)}, "sched": {"object": dict(sched), "probe": dict(sched)},
                          "cons": None, "reset": True, "snap": 1}]
-        out.append((f"snapshots12-{store}", cfg, [[0, 9], [0, 10], [0, 11], [0, 12]] if store == "zip" else [[0, 10], [0, 11], [0, 12]]))
+        out.append((f"snapshots12-{store}", cfg, [[0, 10], [0, 11], [0, 12]] if store == "zip" else [[0, 11], [0, 12]]))
     # … in a two-call history: the snapshot list of the first call is complete (11) when the second call starts
     cfg = _base([2, 3], store="dir", obj_type="pure_phase")
     cfg["calls"] = [{"n": 11, "opt": {"object": dict(ADAM)}, "sched": {"object": _lin(4)}, "cons": None, "reset": True, "snap": 1},
@@ -62,11 +62,11 @@ def fixed_cases():
                         {"n": 2, "opt": {"dataset": {"type": "none"}}}]
         # [1, 0]: the dataset optimizer is removed → the checkpoint is written WITHOUT raw data, the learned positions
         # travel in _dataset_metadata; [0, 1]: positions still being learned (raw data in the file)
-        out.append((f"wide-{scan[0]}x{scan[1]}-{route}", cfg, [[1, 0], [1, 1]] + ([[0, 1]] if route == "auto" else [])))
+        out.append((f"wide-{scan[0]}x{scan[1]}-{route}", cfg, {"dset-arg": [[1, 0], [1, 1]], "auto": [[1, 0], [0, 1]] if scan[0] > scan[1] else [[1, 0]]}[route]))
     cfg = _base([6, 12], store="zip", num_probes=2)
     cfg["calls"] = [{"n": 3, "opt": {"object": dict(ADAM), "probe": dict(ADAM), "dataset": dict(ds)}, "sched": {"dataset": _lin(2)},
                      "cons": None, "reset": True}]
-    out.append(("wide-6x12-raw", cfg, [[0, 1], [0, 2]]))
+    out.append(("wide-6x12-raw", cfg, [[0, 2]]))
     # --- clone / reload while the dataset has no optimizer, then both objects get one
     for inmem in (True, False):
         cfg = _base([3, 2] if inmem else [2, 3], store="zip" if inmem else "dir")
